@@ -9,7 +9,8 @@ LEVEL = "exploration"
 N = {"quick": 640, "thorough": 12000}
 RULE = ("Hypothesis-generated program models (C and C++) x compiler {gcc,clang} x DWARF {4,5} x binary kind "
         "{shared,rel,pie,exe} x comparison form {elf-elf, xml-xml, elf-xml, xml-elf} x abidiff option set; oracle: exit 0 "
-        "and empty stdout. Non-trivial = at least one exported interface reaches an aggregate or enum type; distinct by "
+        "and empty stdout. The ABIXML is what abidw writes by default, except that under --non-reachable-types the mixed "
+        "forms use abidw --load-all-types (the default document omits unreachable types by design). Non-trivial = at least one exported interface reaches an aggregate or enum type; distinct by "
         "SHA-1 of (model, config, form, options).")
 ASSUMPTIONS = ["system gcc/clang produce correct DWARF for the generated programs",
                "tools are rebuilt out-of-tree from /repo's working tree (g++ -O1, asserts live)"]
@@ -57,7 +58,14 @@ def run_case(case, cx):
            "form=" + case["form"], "opts=" + (" ".join(case["opts"]) or "default"))
     a1 = a2 = b
     if "xml" in case["form"]:
-        r = cbuild.tool("abidw", [b])
+        # By default abidw emits only the types reachable from exported interfaces (doc/manuals/abidw.rst,
+        # --load-all-types), so its output is not "the binary" as far as --non-reachable-types is concerned: comparing
+        # it against the ELF file under that option legitimately lists the ELF file's unreachable types.  For the mixed
+        # forms the ABIXML is therefore written with --load-all-types; xml-xml keeps the default document (both sides
+        # carry the same information, and reading it under --non-reachable-types must work).
+        loadall = "--non-reachable-types" in case["opts"] and case["form"] != "xml-xml"
+        cx.cls("abidw=" + ("load-all-types" if loadall else "default"))
+        r = cbuild.tool("abidw", (["--load-all-types"] if loadall else []) + [b])
         if r.rc != 0 or cbuild.crashed(r):
             cx.violation("abidw-failed", r.brief())
             return
